@@ -32,6 +32,7 @@ def run(chk):
     chk.rule('C08-R4', 'mode weight is 1 for k=0 and 2k=n, 2 otherwise, for counts and all weighted sums alike', 6)
     chk.rule('C08-R5', 'per-thread accumulators: sized by the thread count, row = get_thread_id(), int64 counts, summed over axis 0, guarded division', 8)
     chk.rule('C08-R6', 'loops i,j in [0,n), k in [0,n//2+1); mesh value read at [i,j,k]', 2)
+    chk.rule('C08-R7', 'P_n(mu^2, l) is the Legendre polynomial P_l(mu) for l = 0,2,...,10 (exact polynomial identity); pole weight = (2l+1) P_l', 7)
     chk.assume('which side of an edge a mode lying exactly on it falls is not fixed by the statement (float32 rounding decides)')
     chk.assume('mu^2 = k^2/|k|^2 <= 1 <= muedges[-1] ("mu ranges from 0 to 1"): the mu search needs no explicit guard')
     src = chk.src
@@ -43,6 +44,7 @@ def run(chk):
         hermitian(chk, fn, q)
         accumulators(chk, fn, q)
         ranges(chk, fn, q)
+    legendre(chk)
     if chk.tier == 'thorough':
         for q in WIDE:
             if src.has_func(PS, q):
@@ -559,6 +561,13 @@ def hermitian(chk, fn, q):
             st.facts.add_le(K.scale(2), N)      # k <= n//2
             for l in mk(K, N):
                 st.facts.add_ge(l)
+            # function-level integer definitions (kzlen = n1d // 2 + 1, ...) are available to the conditions
+            for s_ in fn.body:
+                if isinstance(s_, ast.Assign) and isinstance(s_.targets[0], ast.Name) and s_.targets[0].id not in st.env:
+                    if names_in(s_.value) <= set(st.env) and not any(isinstance(x, (ast.Call, ast.Subscript, ast.Attribute)) for x in ast.walk(s_.value)):
+                        v_ = eng.ev(s_.value, st, quiet=True)
+                        if isinstance(v_, Int):
+                            st.env[s_.targets[0].id] = v_
             try:
                 p = _case_eval(a.value, st, eng, defs)
             except NotInDomain as e:
@@ -716,3 +725,135 @@ def ranges(chk, fn, q):
         reads = {unparse(n) for n in walk_no_nested(ks[0]) if isinstance(n, ast.Subscript) and unparse(n.value) == 'weights'}
         chk.check(reads == {f'weights[{iv}, {jv}, {kv}]'}, 'C08-R6', PS, q, 'mesh value read at [i, j, k]', '',
                   f'mesh reads {sorted(reads)}: value taken from another mode', node=ks[0], nontrivial=False)
+
+
+# ------------------------------------------------------------------------ R7
+def legendre(chk):
+    """Evaluate P_n's body for concrete even orders with x symbolic (loop trip count is then a
+    constant; factorials come from the literal lookup table) and compare with the Legendre
+    polynomial in mu, x = mu^2, built by Bonnet's recursion."""
+    src = chk.src
+    fn = src.func(PS, 'P_n')
+    table = src.module_assigns(PS).get('FACTORIAL_LOOKUP_TABLE')
+    facts = None
+    if isinstance(table, ast.Call) and table.args and isinstance(table.args[0], (ast.List, ast.Tuple)):
+        facts = [e.value for e in table.args[0].elts if isinstance(e, ast.Constant)]
+    import math
+    okt = facts is not None and len(facts) == 21 and all(facts[i] == math.factorial(i) for i in range(21))
+    chk.check(okt, 'C08-R7', PS, '<module>', 'FACTORIAL_LOOKUP_TABLE[n] == n! for n = 0..20', '', 'the factorial lookup table has a wrong entry', node=table)
+    if not okt:
+        return
+    fa, nck = src.func(PS, 'factorial'), src.func(PS, 'n_choose_k')
+    okf = unparse(nck.body[-2].value if isinstance(nck.body[-2], ast.Assign) else nck.body[-1]) == 'factorial(n) // (factorial(k) * factorial(n - k))' and \
+        any(unparse(s) == 'factorial = FACTORIAL_LOOKUP_TABLE[n]' for s in fa.body)
+    chk.check(okf, 'C08-R7', PS, 'n_choose_k', 'n_choose_k = n! // (k! (n-k)!) from the lookup table', '', 'binomial coefficient no longer n!/(k!(n-k)!)', node=nck)
+    x, nn = [a.arg for a in fn.args.args][:2]
+
+    def C(n, k):
+        return math.comb(n, k)
+
+    def run_Pn(order):
+        """Interpret P_n for a concrete order: returns {exponent of sqrt(x): Fraction coefficient}."""
+        acc = {}
+        loops = [s for s in fn.body if isinstance(s, ast.For)]
+        if len(loops) != 1 or unparse(loops[0].iter) != f'range({nn} // 2 + 1)':
+            raise NotInDomain('loop')
+        kv = loops[0].target.id
+        for k in range(order // 2 + 1):
+            env = {nn: order, kv: k}
+
+            def iv(e):
+                if isinstance(e, ast.Constant):
+                    return Fraction(repr(e.value)) if isinstance(e.value, float) else Fraction(e.value)
+                if isinstance(e, ast.Name):
+                    return Fraction(env[e.id])
+                if isinstance(e, ast.BinOp):
+                    a, b = iv(e.left), iv(e.right)
+                    if isinstance(e.op, ast.Add):
+                        return a + b
+                    if isinstance(e.op, ast.Sub):
+                        return a - b
+                    if isinstance(e.op, ast.Mult):
+                        return a * b
+                    if isinstance(e.op, ast.Mod):
+                        return Fraction(int(a) % int(b))
+                    if isinstance(e.op, ast.FloorDiv):
+                        return Fraction(int(a) // int(b))
+                    if isinstance(e.op, ast.Pow):
+                        return a ** int(b)
+                if isinstance(e, ast.Call):
+                    cn = dotted(e.func)
+                    if cn == 'n_choose_k':
+                        return Fraction(C(int(iv(e.args[0])), int(iv(e.args[1]))))
+                    if cn in ('dtype', 'float') and len(e.args) == 1:
+                        return iv(e.args[0])
+                raise NotInDomain(unparse(e))
+            factor = None
+            for st in loops[0].body:
+                if isinstance(st, ast.Assign) and unparse(st.targets[0]) == 'factor':
+                    factor = iv(st.value)
+                    env['factor'] = factor
+                elif isinstance(st, ast.If):
+                    t = iv(st.test.left) == iv(st.test.comparators[0]) if isinstance(st.test, ast.Compare) and isinstance(st.test.ops[0], ast.Eq) else None
+                    if t is None:
+                        raise NotInDomain('parity test')
+                    for b in (st.body if t else st.orelse):
+                        if isinstance(b, ast.AugAssign) and isinstance(b.op, (ast.Add, ast.Sub)) and isinstance(b.value, ast.BinOp) and isinstance(b.value.op, ast.Mult):
+                            coef = iv(b.value.left)
+                            pw = b.value.right
+                            if not (isinstance(pw, ast.BinOp) and isinstance(pw.op, ast.Pow) and unparse(pw.left) == x):
+                                raise NotInDomain('power term')
+                            ex = iv(pw.right)          # exponent of x = mu^2
+                            sign = 1 if isinstance(b.op, ast.Add) else -1
+                            acc[ex] = acc.get(ex, 0) + sign * coef
+                        else:
+                            raise NotInDomain('term')
+        scale = None
+        for st in fn.body:
+            if isinstance(st, ast.AugAssign) and isinstance(st.op, ast.Mult) and unparse(st.target) == 'sum':
+                env = {nn: order}
+                v = st.value.args[0] if isinstance(st.value, ast.Call) and len(st.value.args) == 1 else st.value
+                if isinstance(v, ast.BinOp) and isinstance(v.op, ast.Pow) and isinstance(v.left, ast.Constant):
+                    ex_ = v.right
+                    def ivn(e):
+                        if isinstance(e, ast.Constant):
+                            return Fraction(e.value)
+                        if isinstance(e, ast.Name) and e.id == nn:
+                            return Fraction(order)
+                        if isinstance(e, ast.BinOp) and isinstance(e.op, (ast.Add, ast.Sub, ast.Mult)):
+                            a_, b_ = ivn(e.left), ivn(e.right)
+                            return a_ + b_ if isinstance(e.op, ast.Add) else (a_ - b_ if isinstance(e.op, ast.Sub) else a_ * b_)
+                        raise NotInDomain(unparse(e))
+                    scale = Fraction(repr(v.left.value)) ** int(ivn(ex_))
+        if scale is None:
+            raise NotInDomain('normalisation')
+        return {e: c * scale for e, c in acc.items() if c != 0}
+
+    def legendre_coeffs(l):
+        """P_l(mu) as {power of mu: coefficient} via Bonnet recursion."""
+        P0, P1 = {0: Fraction(1)}, {1: Fraction(1)}
+        if l == 0:
+            return P0
+        for n in range(1, l):
+            nxt = {}
+            for p, c in P1.items():
+                nxt[p + 1] = nxt.get(p + 1, 0) + c * Fraction(2 * n + 1, n + 1)
+            for p, c in P0.items():
+                nxt[p] = nxt.get(p, 0) - c * Fraction(n, n + 1)
+            P0, P1 = P1, {p: c for p, c in nxt.items() if c != 0}
+        return P1
+    for l in (0, 2, 4, 6, 8, 10):
+        try:
+            got = run_Pn(l)
+        except (NotInDomain, KeyError, IndexError, AttributeError) as e:
+            chk.refuted('C08-R7', PS, 'P_n', f'P_n(mu^2, {l})', f'P_n no longer has the closed-form sum structure ({e})', node=fn)
+            continue
+        want = {Fraction(p, 2): c for p, c in legendre_coeffs(l).items()}
+        chk.check(got == want, 'C08-R7', PS, 'P_n', f'P_n(mu^2, {l}) == Legendre P_{l}(mu)', f'{ {str(k): str(v) for k, v in sorted(got.items())} }',
+                  f'P_n(x, {l}) = {dict((str(k), str(v)) for k, v in sorted(got.items()))} in powers of x = mu^2; Legendre P_{l} is {dict((str(k), str(v)) for k, v in sorted(want.items()))}',
+                  node=fn, nf={str(k): str(v) for k, v in got.items()})
+    # pole weight in bin_kmu
+    bk = src.func(PS, 'bin_kmu')
+    pw = [n for n in walk_no_nested(bk) if isinstance(n, ast.Assign) and unparse(n.targets[0]) == 'pw']
+    chk.check(len(pw) == 1 and unparse(pw[0].value) == 'dtype(2 * pole + 1) * P_n(mu2, pole)', 'C08-R7', PS, 'bin_kmu', 'pole weight = (2l+1) P_l(mu^2 -> mu)', '',
+              f'pole weight is {unparse(pw[0].value) if pw else None}', node=pw[0] if pw else bk)
